@@ -50,7 +50,8 @@ class Scheduler:
             self.pos += 1
             u = min(max(u, 1e-12), 1 - 1e-12)
         else:
-            u = self._draw(law)
+            # an outcome of probability below 1e-16 has no quantile strictly inside (0,1) in double precision
+            u = min(max(self._draw(law), 1e-12), 1 - 1e-12)
         self.used.append(u)
         return u
 
